@@ -8,6 +8,7 @@ import GoHeader.Oracle.C01
 import GoHeader.Oracle.C02
 import GoHeader.Oracle.Store
 import GoHeader.Oracle.C11
+import GoHeader.Oracle.C10
 open GoHeader GoHeader.Oracle
 
 def evalLine (line : String) : Option Verdict :=
@@ -18,6 +19,7 @@ def evalLine (line : String) : Option Verdict :=
     | "C01" :: rest => some (evalC01 rest outs)
     | "C02" :: rest => some (evalC02 rest outs)
     | "C11" :: rest => some (evalC11 rest outs)
+    | "C10" :: rest => some (evalC10 rest outs)
     | _ => some (.bad "unknown property tag")
 
 structure DAcc where
